@@ -36,14 +36,18 @@ const (
 var replStrategyNames = []string{"local", "deduplicating", "concurrency_limiting", "queued", "noop"}
 
 func newReplicator(strategy int, source, sink blobstore.BlobAccess, clk *sim.Clock, limit int64) replication.BlobReplicator {
+	return newReplicatorKF(strategy, source, sink, clk, limit, digest.KeyWithoutInstance)
+}
+
+func newReplicatorKF(strategy int, source, sink blobstore.BlobAccess, clk *sim.Clock, limit int64, kf digest.KeyFormat) replication.BlobReplicator {
 	base := replication.NewLocalBlobReplicator(source, sink)
 	switch strategy {
 	case rsDedup:
-		return replication.NewDeduplicatingBlobReplicator(base, sink, digest.KeyWithoutInstance)
+		return replication.NewDeduplicatingBlobReplicator(base, sink, kf)
 	case rsLimiting:
 		return replication.NewConcurrencyLimitingBlobReplicator(base, sink, semaphore.NewWeighted(limit))
 	case rsQueued:
-		return replication.NewQueuedBlobReplicator(source, base, digest.NewExistenceCache(clk, digest.KeyWithoutInstance, 2, 5*time.Second, eviction.NewLRUSet[string]()))
+		return replication.NewQueuedBlobReplicator(source, base, digest.NewExistenceCache(clk, kf, 2, 5*time.Second, eviction.NewLRUSet[string]()))
 	case rsNoop:
 		return replication.NewNoopBlobReplicator(source)
 	}
@@ -85,6 +89,18 @@ func c11Profile(concurrent bool) func(c *sim.RunCtx) {
 	return func(c *sim.RunCtx) {
 		t := c.T.Plan
 		objs := drawSimpleObjs(t, 2+t.Choose(5), "")
+		// replicas that partition by instance name: some objects get a twin
+		// with the same content (same hash and size) under another name
+		kf := digest.KeyWithoutInstance
+		if t.Chance(1, 3) {
+			kf = digest.KeyWithInstance
+			n := len(objs)
+			for i := 0; i < n; i++ {
+				if t.Chance(1, 2) {
+					objs = append(objs, simpleObj{objs[i].Data, RefDigest("x", remoteexecution.DigestFunction_SHA256, objs[i].Data)})
+				}
+			}
+		}
 		strategy := t.Choose(nReplStrategies)
 		faultRate := []int{0, 0, 60, 200}[t.Choose(4)]
 		streamRate := []int{0, 0, 100}[t.Choose(3)]
@@ -122,14 +138,14 @@ func c11Profile(concurrent bool) func(c *sim.RunCtx) {
 		for i := range placement {
 			placement[i] = t.Choose(4)
 		}
-		desc := fmt.Sprintf("strategy=%s objs=%d placement=%v faultRate=%d streamRate=%d clients=%d", replStrategyNames[strategy], len(objs), placement, faultRate, streamRate, clients)
+		desc := fmt.Sprintf("strategy=%s keyformat=%v objs=%d placement=%v faultRate=%d streamRate=%d clients=%d", replStrategyNames[strategy], kf, len(objs), placement, faultRate, streamRate, clients)
 		c.Sample["case"] = desc
 		c.Note("case %s plans=%v", desc, plans)
 		copying := strategy != rsNoop
 		injected := 0
 		c.Sim(sim.SimOpts{MaxSteps: 200000, DeadlockClass: "deadlock"}, func(s *rt.Sched) {
-			A := newModelStore(c, "A", digest.KeyWithoutInstance)
-			B := newModelStore(c, "B", digest.KeyWithoutInstance)
+			A := newModelStore(c, "A", kf)
+			B := newModelStore(c, "B", kf)
 			for i, p := range placement {
 				if p&1 != 0 {
 					A.Objs[A.key(objs[i].D)] = objs[i].Data
@@ -158,7 +174,7 @@ func c11Profile(concurrent bool) func(c *sim.RunCtx) {
 			}
 			A.StreamFault, B.StreamFault = sf, sf
 			clk := sim.NewClock(s)
-			ba := mirrored.NewMirroredBlobAccess(A, B, newReplicator(strategy, A, B, clk, 1+int64(t.Choose(2))), newReplicator(strategy, B, A, clk, 1+int64(t.Choose(2))))
+			ba := mirrored.NewMirroredBlobAccess(A, B, newReplicatorKF(strategy, A, B, clk, 1+int64(t.Choose(2)), kf), newReplicatorKF(strategy, B, A, clk, 1+int64(t.Choose(2)), kf))
 			ctx := context.Background()
 			gets := 0 // number of Get calls issued so far (sequential profile: decides who is consulted first)
 			runOp := func(o mop) {
